@@ -101,6 +101,8 @@ type scanModel struct {
 	order    []smConfig
 	truncated int
 	ambiguous []string
+	cfgP      bool // the configuration being summarised has an indentation prefix
+	l0Blank   bool // ... and on this path the line is empty: nothing to remove, L0 is L
 	ref       *refAutomaton
 	infeasible int
 }
@@ -158,11 +160,48 @@ func (m *scanModel) isLine(e *Expr) bool {
 	return false
 }
 
-func (m *scanModel) hook(e *Expr) (string, bool) {
-	if m.isLine(e) {
-		return "L", true
+// stripped: the line expression has had the indentation prefix cut off (a
+// slice whose low bound is len(s.prefix)).
+func (m *scanModel) stripped(e *Expr) bool {
+	for e != nil && e.Op == OpSlice {
+		if lo := e.Args[1]; lo != nil && strings.Contains(lo.String(), "s.prefix") {
+			return true
+		}
+		e = e.Args[0]
 	}
-	if e.calleeIs(modPath+"/stack", "trimLeftSpace") && len(e.Args) == 2 && m.isLine(e.Args[1]) {
+	return false
+}
+
+// lineName: "L" for the line the states classify (after the indentation
+// prefix, if any, has been removed), "L0" for the line with its indentation
+// still on in a configuration where there is one.
+func (m *scanModel) lineName(e *Expr) string {
+	if !m.isLine(e) {
+		return ""
+	}
+	if m.cfgP && !m.l0Blank && !m.stripped(e) {
+		return "L0"
+	}
+	return "L"
+}
+
+// isBlank0 recognises len(line with its indentation on) == 0.
+func (m *scanModel) isBlank0(a *Expr) bool {
+	if a.Op != OpBin || a.Tok != token.EQL {
+		return false
+	}
+	if z, ok := a.Args[1].intConst(); !ok || z != 0 {
+		return false
+	}
+	l := a.Args[0]
+	return l.Op == OpBuiltin && l.Name == "len" && len(l.Args) == 1 && m.cfgP && m.isLine(l.Args[0]) && !m.stripped(l.Args[0])
+}
+
+func (m *scanModel) hook(e *Expr) (string, bool) {
+	if n := m.lineName(e); n != "" {
+		return n, true
+	}
+	if e.calleeIs(modPath+"/stack", "trimLeftSpace") && len(e.Args) == 2 && m.lineName(e.Args[1]) == "L" {
 		return "L", true // leading blanks of race report lines are not significant for the line kind
 	}
 	if e.Op == OpInit || (e.Op == OpUn && e.Tok == token.MUL) {
@@ -188,9 +227,6 @@ func (m *scanModel) submatchOf(e *Expr) (glob string, subject *Expr) {
 // the name has the opposite polarity of the atom.
 func (m *scanModel) atomName(a *Expr) (name string, flip bool) {
 	subj := func(x *Expr) string {
-		if m.isLine(x) {
-			return ""
-		}
 		if s, ok := m.hook(x); ok && s == "L" {
 			return ""
 		}
@@ -251,6 +287,9 @@ func (m *scanModel) atomName(a *Expr) (name string, flip bool) {
 	case a.Op == OpBin && a.Tok == token.EQL:
 		if z, ok := a.Args[1].intConst(); ok && z == 0 {
 			if l := a.Args[0]; l.Op == OpBuiltin && l.Name == "len" && len(l.Args) == 1 {
+				if m.isBlank0(a) {
+					return "blank0", false
+				}
 				if s, ok := m.hook(l.Args[0]); ok && s == "L" {
 					return "blank", false
 				}
@@ -459,6 +498,14 @@ func (m *scanModel) explore(cfg smConfig) []*smTrans {
 
 func (m *scanModel) summarise(cfg smConfig, p *Path) *smTrans {
 	t := &smTrans{From: cfg, Lits: map[string]bool{}, Term: p.Term, Path: p}
+	m.cfgP = cfg.Pne
+	m.l0Blank = false
+	defer func() { m.cfgP, m.l0Blank = false, false }()
+	for _, l := range p.Lits {
+		if l.Pol && m.isBlank0(l.Atom) {
+			m.l0Blank = true
+		}
+	}
 	for _, l := range p.Lits {
 		n, flip := m.atomName(l.Atom)
 		pol := l.Pol != flip
@@ -471,6 +518,13 @@ func (m *scanModel) summarise(cfg smConfig, p *Path) *smTrans {
 		}
 		t.Lits[n] = pol
 		t.LitOrder = append(t.LitOrder, n)
+	}
+	if v, ok := t.Lits["blank0"]; ok && v {
+		// an empty line has no indentation to remove: it is the line classified
+		if _, ok := t.Lits["blank"]; !ok {
+			t.Lits["blank"] = true
+			t.LitOrder = append(t.LitOrder, "blank")
+		}
 	}
 	if _, ok := t.Lits["loop:goroutines"]; ok {
 		// the search loop over the goroutines ran: without a positive match
@@ -707,6 +761,27 @@ func (m *scanModel) checkNewGoroutine(cfg smConfig, p *Path, t *smTrans, ev Even
 			continue
 		}
 		f := strings.TrimPrefix(strings.Join(sel, "."), "Signature.")
+		// a struct built in a local and stored as a whole: its fields, the
+		// zero value for those never assigned
+		if v := e.Val; v.Op == OpInit && v.Type != nil && len(v.Args) == 1 {
+			if stt, ok := v.Type.Underlying().(*types.Struct); ok {
+				if ab := addrBase(v.Args[0]); ab != nil && ab.Op == OpAlloc {
+					pre := ""
+					if f != "Signature" {
+						pre = f + "."
+					}
+					for i := 0; i < stt.NumFields(); i++ {
+						fl := stt.Field(i)
+						if pv := v.Parts[fl.Name()]; pv != nil {
+							fields[pre+fl.Name()] = m.valueToken(pv)
+						} else if z := zeroOf(fl.Type()); z != nil && z.Const != nil {
+							fields[pre+fl.Name()] = m.valueToken(z)
+						}
+					}
+					continue
+				}
+			}
+		}
 		fields[f] = m.valueToken(e.Val)
 	}
 	first := fields["First"]
